@@ -1161,3 +1161,340 @@ Proof.
   assert (HL : LI nodes app szs o so (dp_init (length nodes) nodes)) by (eapply LI_init; eassumption).
   destruct (dp_loop_LI nodes app szs o so H2 H3 Ho Hn fuel cap _ _ HL E) as [[_ HC] Hne]. cbn [fst] in *. split; [exact Hne|]. exact (HC Hne).
 Qed.
+
+
+(* ================================================================== *)
+(* the enumerator all_trees is complete up to swapping children *)
+
+Inductive teq : tree -> tree -> Prop :=
+| teq_leaf k : teq (Leaf k) (Leaf k)
+| teq_node l r l' r' : teq l l' -> teq r r' -> teq (Node l r) (Node l' r')
+| teq_swap l r l' r' : teq l l' -> teq r r' -> teq (Node l r) (Node r' l').
+
+Lemma teq_refl t : teq t t.
+Proof. induction t; constructor; assumption. Qed.
+
+(* t' is t with the leaf x cut out (its sibling takes the parent's place) *)
+Inductive removed (x : nat) : tree -> tree -> Prop :=
+| rm_l r : removed x (Node (Leaf x) r) r
+| rm_r l : removed x (Node l (Leaf x)) l
+| rm_in_l l l' r : removed x l l' -> removed x (Node l r) (Node l' r)
+| rm_in_r l r r' : removed x r r' -> removed x (Node l r) (Node l r').
+
+Lemma exists_removed x t : In x (leaves t) -> t <> Leaf x -> exists t', removed x t t'.
+Proof.
+  induction t as [k|l IHl r IHr]; cbn [leaves]; intros Hin Hne.
+  - destruct Hin as [->|[]]. congruence.
+  - apply in_app_iff in Hin. destruct Hin as [Hin|Hin].
+    + destruct l as [k|l1 l2].
+      * destruct Hin as [->|[]]. eexists; apply rm_l.
+      * destruct (IHl Hin ltac:(discriminate)) as [l' Hl']. eexists; apply rm_in_l, Hl'.
+    + destruct r as [k|r1 r2].
+      * destruct Hin as [->|[]]. eexists; apply rm_r.
+      * destruct (IHr Hin ltac:(discriminate)) as [r' Hr']. eexists; apply rm_in_r, Hr'.
+Qed.
+
+Lemma removed_leaves x t t' : removed x t t' -> Permutation (leaves t) (x :: leaves t').
+Proof.
+  induction 1; cbn [leaves app].
+  - reflexivity.
+  - symmetry. apply Permutation_cons_append.
+  - rewrite IHremoved. reflexivity.
+  - rewrite IHremoved. symmetry. apply Permutation_middle.
+Qed.
+
+Lemma inserts_head x t : In (Node (Leaf x) t) (inserts x t).
+Proof. destruct t; left; reflexivity. Qed.
+
+Lemma inserts_left x l r u : In u (inserts x l) -> In (Node u r) (inserts x (Node l r)).
+Proof. intros H. cbn [inserts]. right. apply in_app_iff. left. apply (in_map (fun l' => Node l' r)). exact H. Qed.
+
+Lemma inserts_right x l r u : In u (inserts x r) -> In (Node l u) (inserts x (Node l r)).
+Proof.
+  intros H. cbn [inserts]. right. apply in_app_iff. right.
+  apply (in_map (fun r' => Node l r')). exact H.
+Qed.
+
+Lemma removed_insert x t t' : removed x t t' ->
+  forall t0, teq t' t0 -> exists u0, In u0 (inserts x t0) /\ teq t u0.
+Proof.
+  induction 1 as [r|l|l l' r Hrm IH|l r r' Hrm IH]; intros t0 Ht.
+  - exists (Node (Leaf x) t0). split; [apply inserts_head|]. constructor; [constructor | exact Ht].
+  - exists (Node (Leaf x) t0). split; [apply inserts_head|]. apply teq_swap; [exact Ht | constructor].
+  - inversion Ht as [|a b a' b' Ha Hb|a b a' b' Ha Hb]; subst.
+    + destruct (IH _ Ha) as (ua & Hin & Hq). exists (Node ua b'). split; [apply inserts_left, Hin|].
+      constructor; assumption.
+    + destruct (IH _ Ha) as (ua & Hin & Hq). exists (Node b' ua). split; [apply inserts_right, Hin|].
+      apply teq_swap; assumption.
+  - inversion Ht as [|a b a' b' Ha Hb|a b a' b' Ha Hb]; subst.
+    + destruct (IH _ Hb) as (ub & Hin & Hq). exists (Node a' ub). split; [apply inserts_right, Hin|].
+      constructor; assumption.
+    + destruct (IH _ Hb) as (ub & Hin & Hq). exists (Node ub a'). split; [apply inserts_left, Hin|].
+      apply teq_swap; assumption.
+Qed.
+
+Lemma leaves_nonempty t : 1 <= length (leaves t).
+Proof. induction t; cbn [leaves length]; [lia|]. rewrite app_length. lia. Qed.
+
+Lemma all_trees_cons2 x y ls : all_trees (x :: y :: ls) = flat_map (inserts x) (all_trees (y :: ls)).
+Proof. reflexivity. Qed.
+
+(* completeness: every binary tree over the leaves ls is, up to swapping children, in the list *)
+Theorem all_trees_complete : forall ls t, Permutation (leaves t) ls ->
+  exists t0, In t0 (all_trees ls) /\ teq t t0.
+Proof.
+  induction ls as [|x ls IH]; intros t Hp.
+  - apply Permutation_length in Hp. pose proof (leaves_nonempty t). cbn in Hp. lia.
+  - destruct ls as [|y ls].
+    + destruct t as [k|l r].
+      * cbn [leaves] in Hp. apply Permutation_length_1 in Hp. subst. exists (Leaf x). split; [left; reflexivity | constructor].
+      * apply Permutation_length in Hp. cbn [leaves length] in Hp. rewrite app_length in Hp.
+        pose proof (leaves_nonempty l). pose proof (leaves_nonempty r). lia.
+    + assert (Hin : In x (leaves t)) by (apply (Permutation_in x (Permutation_sym Hp)); left; reflexivity).
+      assert (Hne : t <> Leaf x).
+      { intros ->. apply Permutation_length in Hp. cbn in Hp. lia. }
+      destruct (exists_removed x t Hin Hne) as [t' Hrm].
+      assert (Hp' : Permutation (leaves t') (y :: ls)).
+      { apply (Permutation_cons_inv (a := x)). rewrite <- (removed_leaves _ _ _ Hrm). exact Hp. }
+      destruct (IH t' Hp') as (t0 & Hin0 & Hq0).
+      destruct (removed_insert x t t' Hrm t0 Hq0) as (u0 & Hu0 & Hq).
+      exists u0. split; [|exact Hq]. rewrite all_trees_cons2. apply in_flat_map. exists t0. auto.
+Qed.
+
+(* soundness: every listed tree uses exactly the given leaves *)
+Lemma inserts_leaves x t : forall u, In u (inserts x t) -> Permutation (leaves u) (x :: leaves t).
+Proof.
+  induction t as [k|l IHl r IHr]; intros u Hu; cbn [inserts] in Hu.
+  - destruct Hu as [<-|[]]. reflexivity.
+  - destruct Hu as [<-|Hu]; [reflexivity|]. apply in_app_iff in Hu. destruct Hu as [Hu|Hu]; apply in_map_iff in Hu.
+    + destruct Hu as (l' & <- & Hl'). cbn [leaves]. rewrite (IHl _ Hl'). reflexivity.
+    + destruct Hu as (r' & <- & Hr'). cbn [leaves]. rewrite (IHr _ Hr'). symmetry. apply Permutation_middle.
+Qed.
+
+Theorem all_trees_sound : forall ls t, In t (all_trees ls) -> Permutation (leaves t) ls.
+Proof.
+  induction ls as [|x ls IH]; intros t Ht; [destruct Ht|].
+  destruct ls as [|y ls].
+  - destruct Ht as [<-|[]]. reflexivity.
+  - rewrite all_trees_cons2 in Ht. apply in_flat_map in Ht. destruct Ht as (t0 & Ht0 & Hu).
+    rewrite (inserts_leaves _ _ _ Hu). constructor. apply IH, Ht0.
+Qed.
+
+(* swapping children changes neither the leaf set, nor the score, nor admissibility *)
+Lemma teq_mask t t0 : teq t t0 -> mask t = mask t0.
+Proof. induction 1; cbn [mask]; [reflexivity | congruence|]. rewrite N.lor_comm. congruence. Qed.
+
+Lemma teq_tscore nodes app szs o t t0 : teq t t0 ->
+  tscore nodes app szs o t = tscore nodes app szs o t0.
+Proof.
+  induction 1 as [k|l r l' r' Hl IHl Hr IHr|l r l' r' Hl IHl Hr IHr]; cbn [tscore]; [reflexivity| |].
+  - rewrite IHl, IHr, (teq_mask _ _ Hl), (teq_mask _ _ Hr). reflexivity.
+  - rewrite IHl, IHr, (teq_mask _ _ Hl), (teq_mask _ _ Hr), combine_sym, step_cost_sym. reflexivity.
+Qed.
+
+Lemma teq_outer_free nodes app t t0 : teq t t0 -> outer_free nodes app t = outer_free nodes app t0.
+Proof.
+  induction 1 as [k|l r l' r' Hl IHl Hr IHr|l r l' r' Hl IHl Hr IHr]; cbn [outer_free]; [reflexivity| |].
+  - rewrite IHl, IHr, (teq_mask _ _ Hl), (teq_mask _ _ Hr). reflexivity.
+  - rewrite IHl, IHr, (teq_mask _ _ Hl), (teq_mask _ _ Hr), shares_sym.
+    rewrite (andb_comm (outer_free nodes app l')). reflexivity.
+Qed.
+
+Lemma full_tree_perm n t : full_tree n t <-> Permutation (leaves t) (seq 0 n).
+Proof.
+  split.
+  - intros [Hnd Hin]. apply NoDup_Permutation; [exact Hnd | apply seq_NoDup|].
+    intros i. rewrite Hin, in_seq. lia.
+  - intros Hp. split.
+    + apply (Permutation_NoDup (Permutation_sym Hp)), seq_NoDup.
+    + intros i. split; intros H.
+      * apply (Permutation_in _ Hp) in H. apply in_seq in H. lia.
+      * apply (Permutation_in _ (Permutation_sym Hp)). apply in_seq. lia.
+Qed.
+
+Lemma fold_min_le l : forall a, (fold_left Z.min l a <= a)%Z /\ (forall x, In x l -> (fold_left Z.min l a <= x)%Z).
+Proof.
+  induction l as [|y l IH]; intros a; cbn [fold_left]; [split; [lia | intros x []]|].
+  destruct (IH (Z.min a y)) as [H1 H2]. split; [lia|].
+  intros x [<-|Hx]; [lia | apply H2, Hx].
+Qed.
+
+Lemma fold_min_in l : forall a, fold_left Z.min l a = a \/ In (fold_left Z.min l a) l.
+Proof.
+  induction l as [|y l IH]; intros a; cbn [fold_left]; [left; reflexivity|].
+  destruct (IH (Z.min a y)) as [H|H]; [|right; right; exact H].
+  rewrite H. destruct (Z.min_spec a y) as [[_ E]|[_ E]]; rewrite E; [left; reflexivity | right; left; reflexivity].
+Qed.
+
+Lemma zmin_list_spec l v : zmin_list l = Some v -> In v l /\ forall x, In x l -> (v <= x)%Z.
+Proof.
+  destruct l as [|a l]; cbn [zmin_list]; [discriminate|]. intros H; inversion H; subst. clear H.
+  destruct (fold_min_le l a) as [H1 H2]. split.
+  - destruct (fold_min_in l a) as [E|E]; [rewrite E; left; reflexivity | right; exact E].
+  - intros x [<-|Hx]; [exact H1 | apply H2, Hx].
+Qed.
+
+(* the enumerated minimum is the true minimum over all admissible trees using every tensor once *)
+Theorem brute_min_is_min nodes app szs o so v :
+  brute_min nodes app szs o so = Some v ->
+  (exists t, full_tree (length nodes) t /\ admissible nodes app so t = true /\ tscore nodes app szs o t = v) /\
+  (forall t', full_tree (length nodes) t' -> admissible nodes app so t' = true ->
+              (v <= tscore nodes app szs o t')%Z).
+Proof.
+  unfold brute_min. intros H. apply zmin_list_spec in H. destruct H as [Hin Hmin]. split.
+  - apply in_map_iff in Hin. destruct Hin as (t & Hs & Ht). apply filter_In in Ht. destruct Ht as [Ht Ha].
+    exists t. split; [apply full_tree_perm, all_trees_sound, Ht | auto].
+  - intros t' Hf Ha. apply full_tree_perm in Hf.
+    destruct (all_trees_complete _ _ Hf) as (t0 & Hin0 & Hq).
+    rewrite (teq_tscore nodes app szs o _ _ Hq). apply Hmin. apply in_map. apply filter_In. split; [exact Hin0|].
+    unfold admissible in *. rewrite <- (teq_outer_free nodes app _ _ Hq). exact Ha.
+Qed.
+
+(* hence the DP and the exhaustive enumeration agree, for every network satisfying wf_procb *)
+Theorem dp_equals_brute nodes app szs o so fuel cap sc bp v :
+  wf_procb nodes app szs = true -> obj_ok o -> 1 <= length nodes ->
+  dp_result app szs o so (length nodes) nodes fuel cap = Some (sc, bp) ->
+  brute_min nodes app szs o so = Some v -> sc = v.
+Proof.
+  intros Hwf Ho Hn Hd Hb.
+  destruct (dp_optimal _ _ _ _ _ _ _ _ _ Hwf Ho Hn Hd) as [(t & Hf & Ha & Hs & _) Hmin].
+  destruct (brute_min_is_min _ _ _ _ _ _ Hb) as [(t2 & Hf2 & Ha2 & Hs2) Hmin2].
+  pose proof (Hmin t2 Hf2 Ha2). pose proof (Hmin2 t Hf Ha). lia.
+Qed.
+
+
+
+(* ================================================================== *)
+(* the top level holds exactly one entry when the loop stops (Python line 742 never fails) *)
+
+Lemma tget_None_keys s t : tget s t = None -> ~ In s (map fst t).
+Proof.
+  induction t as [|[k w] t IH]; cbn [tget map fst In]; [tauto|].
+  destruct (N.eqb_spec k s) as [->|Hne]; [discriminate|]. intros H [E|Hin]; [congruence | exact (IH H Hin)].
+Qed.
+
+Lemma keys_tset_some s e t cur : tget s t = Some cur -> map fst (tset s e t) = map fst t.
+Proof.
+  induction t as [|[k w] t IH]; cbn [tget tset map fst]; [discriminate|].
+  destruct (N.eqb_spec k s) as [->|Hne]; [reflexivity|]. intros H. cbn [map fst]. rewrite (IH H). reflexivity.
+Qed.
+
+Lemma keys_tset_none s e t : tget s t = None -> map fst (tset s e t) = map fst t ++ [s].
+Proof.
+  induction t as [|[k w] t IH]; cbn [tget tset map fst app]; [reflexivity|].
+  destruct (N.eqb_spec k s) as [->|Hne]; [discriminate|]. intros H. cbn [map fst]. rewrite (IH H). reflexivity.
+Qed.
+
+Lemma NoDup_snoc {A} (l : list A) x : NoDup l -> ~ In x l -> NoDup (l ++ [x]).
+Proof.
+  intros Hnd Hx. apply NoDup_app_iff. split; [exact Hnd|]. split; [constructor; [intros []|constructor]|].
+  intros y Hy [<-|[]]. exact (Hx Hy).
+Qed.
+
+Lemma try_pair_keys app szs o so cap tm p :
+  NoDup (map fst tm) -> NoDup (map fst (try_pair app szs o so cap tm p)).
+Proof.
+  intros Hnd. destruct (try_pair_cases app szs o so cap tm p) as [E|(tl & a & b & _ & H)]; [rewrite E; exact Hnd|].
+  cbv zeta in H. destruct H as (_ & E & [Hn|(cur & Hc & _)]); rewrite E.
+  - rewrite (keys_tset_none _ _ _ Hn). apply NoDup_snoc; [exact Hnd | apply tget_None_keys, Hn].
+  - rewrite (keys_tset_some _ _ _ _ Hc). exact Hnd.
+Qed.
+
+Definition nodupkeys (tabs : list table) : Prop := forall m, NoDup (map fst (nth m tabs [])).
+
+Lemma level_pass_keys app szs o so cap tabs m :
+  nodupkeys tabs -> nodupkeys (level_pass app szs o so cap tabs m).
+Proof.
+  intros H m'. unfold level_pass.
+  match goal with |- NoDup (map fst (nth m' (set_nth m ?v tabs) [])) =>
+    destruct (nth_set_nth_cases v (@nil (N * entry)) tabs m m') as [E|[-> E]]; rewrite E; [apply H|]; clear E end.
+  apply (fold_left_inv (fun tm k => fold_left (try_pair app szs o so cap) (pairs_for tabs m k) tm)
+                       (fun tm => NoDup (map fst tm))); [|apply H].
+  intros tm k _ Htm.
+  apply (fold_left_inv (try_pair app szs o so cap) (fun tm => NoDup (map fst tm))); [|exact Htm].
+  intros tm' p _ Htm'. apply try_pair_keys, Htm'.
+Qed.
+
+Lemma full_pass_keys app szs o so nt cap tabs :
+  nodupkeys tabs -> nodupkeys (full_pass app szs o so nt cap tabs).
+Proof.
+  unfold full_pass. apply fold_left_inv. intros a m _. apply level_pass_keys.
+Qed.
+
+Lemma dp_loop_keys app szs o so nt fuel : forall cap tabs r,
+  nodupkeys tabs -> dp_loop app szs o so nt fuel cap tabs = Some r -> nodupkeys (fst r).
+Proof.
+  induction fuel as [|f IH]; intros cap tabs r Hk H; cbn [dp_loop] in H.
+  - destruct (nth nt tabs []); [discriminate|]. inversion H; subst. exact Hk.
+  - destruct (nth nt tabs []).
+    + apply IH in H; [exact H | apply full_pass_keys, Hk].
+    + inversion H; subst. exact Hk.
+Qed.
+
+Lemma bit_inj i j : bit i = bit j -> i = j.
+Proof.
+  intros H. assert (E : N.testbit (bit i) (N.of_nat j) = true) by (rewrite H, bit_testbit; apply N.eqb_refl).
+  rewrite bit_testbit in E. apply N.eqb_eq in E. apply Nat2N.inj, E.
+Qed.
+
+Lemma nth_set_nth_P {A} (P : A -> Prop) x d l k k' :
+  P (nth k' l d) -> P x -> P (nth k' (set_nth k x l) d).
+Proof.
+  intros H1 H2. destruct (nth_set_nth_cases x d l k k') as [E|[_ E]]; rewrite E; assumption.
+Qed.
+
+Lemma dp_init_keys nt wlegs : nodupkeys (dp_init nt wlegs).
+Proof.
+  intros m. unfold dp_init.
+  apply (nth_set_nth_P (fun tm : table => NoDup (map fst tm))).
+  - cbv beta. unfold table. rewrite nth_repeat_nil. constructor.
+  - rewrite map_map. cbn [fst].
+    assert (G : forall (l : list legs) a, NoDup (map (fun x : nat * legs => bit (fst x)) (combine (seq a nt) l))).
+    { clear. revert nt. intros nt l. revert nt. induction l as [|y l IH]; intros nt a.
+      - destruct nt; cbn; constructor.
+      - destruct nt as [|nt]; cbn [seq combine map fst]; [constructor|]. constructor; [|apply IH].
+        intros Hin. apply in_map_iff in Hin. destruct Hin as ([i z] & Hb & Hc). cbn [fst] in Hb.
+        apply bit_inj in Hb. subst i. apply in_combine_l in Hc. apply in_seq in Hc. lia. }
+    apply G.
+Qed.
+
+Lemma full_mask_unique n t1 t2 : full_tree n t1 -> full_tree n t2 -> mask t1 = mask t2.
+Proof.
+  intros [_ H1] [_ H2]. apply N.bits_inj. intros k.
+  destruct (N.testbit (mask t1) k) eqn:E1, (N.testbit (mask t2) k) eqn:E2; try reflexivity.
+  - apply mask_spec, H1, H2, mask_spec in E1. congruence.
+  - apply mask_spec, H2, H1, mask_spec in E2. congruence.
+Qed.
+
+(* when the loop stops, its top level is a single entry: dp_result does not fail *)
+Theorem dp_single_entry nodes app szs o so fuel cap tabs cap' :
+  wf_procb nodes app szs = true -> obj_ok o -> 1 <= length nodes ->
+  dp_loop app szs o so (length nodes) fuel cap (dp_init (length nodes) nodes) = Some (tabs, cap') ->
+  exists S e, nth (length nodes) tabs [] = [(S, e)].
+Proof.
+  intros Hwf Ho Hn E.
+  destruct (sieve_first_hit _ _ _ _ _ _ _ _ _ Hwf Ho Hn E) as [Hne _].
+  pose proof (dp_loop_keys _ _ _ _ _ _ _ _ _ (dp_init_keys _ _) E (length nodes)) as Hk. cbn [fst] in Hk.
+  pose proof (dp_tables_sound_wf _ _ _ _ _ _ _ _ _ Hwf Ho Hn E (length nodes)) as Hs.
+  destruct (nth (length nodes) tabs []) as [|[S e] [|[S2 e2] rest]]; [congruence | eauto | exfalso].
+  destruct (Hs S e (or_introl eq_refl)) as (t1 & Hv1 & Hn1 & _).
+  destruct (Hs S2 e2 (or_intror (or_introl eq_refl))) as (t2 & Hv2 & Hn2 & _).
+  pose proof (vtree_full _ _ _ Hv1 Hn1) as F1. pose proof (vtree_full _ _ _ Hv2 Hn2) as F2.
+  pose proof (vtree_mask _ _ _ Hv1) as M1. pose proof (vtree_mask _ _ _ Hv2) as M2.
+  pose proof (full_mask_unique _ _ _ F1 F2) as MU.
+  assert (S = S2) by congruence. subst S2.
+  cbn [map fst] in Hk. inversion Hk as [|? ? Hnin _]; subst. apply Hnin. left; congruence.
+Qed.
+
+(* total correctness: with enough fuel the model returns a result (and by dp_optimal it is optimal) *)
+Theorem dp_result_total nodes app szs o so t0 f cap :
+  wf_procb nodes app szs = true -> obj_ok o -> 1 <= length nodes ->
+  full_tree (length nodes) t0 -> admissible nodes app so t0 = true ->
+  (tscore nodes app szs o t0 <= cap * 2 ^ Z.of_nat f)%Z ->
+  exists sc bp, dp_result app szs o so (length nodes) nodes (S f) cap = Some (sc, bp).
+Proof.
+  intros Hwf Ho Hn Hf Ha Hb.
+  destruct (dp_terminates_full _ _ _ _ _ _ _ _ Hwf Ho Hn Hf Ha Hb) as (tabs & cap' & E & _).
+  destruct (dp_single_entry _ _ _ _ _ _ _ _ _ Hwf Ho Hn E) as (S0 & e & Es).
+  unfold dp_result. rewrite E, Es. eauto.
+Qed.
